@@ -149,6 +149,10 @@ func findRowIdxRange(timeCol *record.ColVal, tr util.TimeRange, ascending bool) 
 	if !ascending {
 		rowIdxStart, rowIdxStop = rowIdxStop, rowIdxStart
 	}
+	if rowIdxStop < rowIdxStart {
+		// tr.Min > tr.Max: no row is inside the range
+		rowIdxStop = rowIdxStart
+	}
 	return rowIdxStart, rowIdxStop
 }
 
